@@ -1,1 +1,427 @@
-"""Rules for C04 (see DESIGN.md section 5)."""
+"""C04 -- smallest fitting symbol; overflow reported, never truncated."""
+import ast
+
+from .. import ev, iso, nf, pat, src
+from ..core import rule, ob, explain, Ob
+from ..ev import PyRaise
+from ..interp import Interp, make_callable, FuncVal
+from ..src import Unknown
+from .common import C, levels, micro_versions, modes, table_ob, need, single
+from .models import BufModel, SegModel, SegmentsModel, encoder_env, method
+
+explain('C04', '''Decided (structural): SYMBOL_CAPACITY equals 8*sum(data codewords) (-4 for M1/M3) for all 168
+cells and has exactly the level keys each version defines; mode availability and count-indicator widths match ISO
+Table 2/3; find_version - whose control flow depends only on (needed bits per version, mode set, level, eci, micro) -
+is interpreted abstractly over that finite domain (every admissible-range combination, every target version, both
+sides of the capacity boundary) and returns the first admissible version in M1<..<M4<1<..<40 or raises
+DataOverflowError; encode returns exactly a requested version iff the smallest fitting one is not larger, and
+refuses otherwise with DataOverflowError; every call of _encode is dominated by a witness that its segments fit the
+version it is given (the version= path of encode_sequence has none: known finding); the number of bits budgeted
+equals the number of bits written for every version, mode, ECI/SA/Hanzi combination (shared with C01.R3).
+NOT decided: the payload bit count of a concrete content (its per-mode formula is C01.R2).''')
+
+BIG = 10 ** 9
+
+
+@rule('C04', 'R1', 212, 'SYMBOL_CAPACITY = 8 * data codewords (-4 for M1/M3); level keys = levels the version defines')
+def r1(fx):
+    cap = C(fx, 'SYMBOL_CAPACITY')
+    lv, mv = levels(fx), micro_versions(fx)
+    yield table_ob(fx, 'SYMBOL_CAPACITY', 'versions', sorted(cap.keys()), sorted(set(range(1, 41)) | set(mv.values())))
+    for v in iso.ALL_VERSIONS:
+        row = cap.get(mv[v] if v < 1 else v, {})
+        want_keys = sorted(((None if l is None else lv[l]) for l in iso.levels_of(v)), key=repr)
+        yield table_ob(fx, 'SYMBOL_CAPACITY', f'{v} levels', sorted(row.keys(), key=repr), want_keys)
+        for l in iso.levels_of(v):
+            yield table_ob(fx, 'SYMBOL_CAPACITY', f'{v}-{l}', row.get(None if l is None else lv[l]), iso.capacity_bits(v, l))
+
+
+@rule('C04', 'R2', 32, 'SUPPORTED_MODES = ISO Table 2; a character-count width exists iff the mode is available')
+def r2(fx):
+    sm = C(fx, 'SUPPORTED_MODES')
+    md, mv = modes(fx), micro_versions(fx)
+    cci = C(fx, 'CHAR_COUNT_INDICATOR_LENGTH')
+    ranges = {1: C(fx, 'VERSION_RANGE_01_09'), 2: C(fx, 'VERSION_RANGE_10_26'), 3: C(fx, 'VERSION_RANGE_27_40')}
+    for name, allowed in iso.SUPPORTED.items():
+        want = sorted(((None if a is None else mv[a]) for a in allowed), key=repr)
+        got = sm.get(md[name])
+        yield table_ob(fx, 'SUPPORTED_MODES', name, sorted(got, key=repr) if got is not None else None, want)
+    for name, widths in iso.CCI.items():
+        row = cci.get(md[name], {})
+        want = {(ranges[k] if k >= 1 else mv[k]): w for k, w in widths.items()}
+        for k in sorted(set(row) | set(want), key=repr):
+            yield table_ob(fx, 'CHAR_COUNT_INDICATOR_LENGTH', f'{name}/{k}', row.get(k), want.get(k))
+    # version_range maps 1..40 onto the three classes
+    it = Interp()
+    vr = make_callable(fx.forest, 'encoder', 'version_range', it)
+    bad = [(v, vr(v)) for v in range(1, 41) if vr(v) != ranges[iso.version_range(v)]]
+    yield ob('version_range boundaries 9/10 and 26/27', not bad, fx.fn('encoder', 'version_range'), got=bad, want=[])
+
+
+def _oracle_first_fit(fx, mode_names, error, eci, micro, needf):
+    """First admissible version per the property, or None (overflow).  error: level letter or None."""
+    for v in iso.ALL_VERSIONS:
+        if v < 1:
+            if micro is False or eci:
+                continue
+            if any(v not in iso.SUPPORTED[m] for m in mode_names):
+                continue
+            if v == -3 and error is not None:
+                continue
+            lvl = None if v == -3 else (error or 'L')
+            if lvl not in iso.levels_of(v):
+                continue
+        else:
+            if micro is True:
+                continue
+            lvl = error or 'L'
+        if needf(v) <= iso.capacity_bits(v, lvl):
+            return v
+    return None
+
+
+MODE_SETS = (('numeric',), ('alphanumeric',), ('byte',), ('kanji',), ('hanzi',), ('numeric', 'byte'),
+             ('alphanumeric', 'kanji'), ('numeric', 'alphanumeric'))
+
+
+@rule('C04', 'R3', 200, 'find_version: first admissible version whose capacity >= needed bits, else DataOverflowError (abstract decision table)')
+def r3(fx):
+    fn = fx.fn('encoder', 'find_version')
+    lv, mv, md = levels(fx), micro_versions(fx), modes(fx)
+    inv_v = {val: k for k, val in mv.items()}
+    it = Interp(max_steps=50_000_000)
+    genv = encoder_env(fx.forest, it)
+    fv = FuncVal(fn, genv, it)
+    real_sizer = FuncVal(fx.fn('encoder', 'Segments.bit_length_with_overhead'), genv, it)
+    sizer_cache = {}
+    thorough = fx.tier == 'thorough'
+    targets = list(iso.ALL_VERSIONS) if thorough else [-3, -2, -1, 0, 1, 2, 9, 10, 26, 27, 39, 40]
+    n_cases = 0
+    for micro in (None, True, False):
+        for error in (None, 'L', 'M', 'Q', 'H'):
+            for eci in (False, True):
+                if eci and micro:
+                    continue    # excluded by encode before find_version is reached (C14.R4); asserted here
+                for mset in MODE_SETS:
+                    bad = None
+                    cnt = 0
+                    for tgt in targets:
+                        for kind in ('from', 'exact', 'over'):
+                            def lvl_of(v):
+                                return None if v == -3 else (error or 'L')
+
+                            def needf(v, tgt=tgt, kind=kind):
+                                if v < tgt:
+                                    return BIG
+                                if kind == 'from':
+                                    return 0
+                                if v == tgt:
+                                    l = lvl_of(v)
+                                    if l not in iso.levels_of(v):
+                                        return BIG
+                                    c = iso.capacity_bits(v, l)
+                                    return c if kind == 'exact' else c + 1
+                                return 0
+                            segs = SegmentsModel([SegModel(md[m], None) for m in mset])
+
+                            def blwo(version, e, sa=False, nf_=needf, segs=segs, mset=mset):
+                                # the repository's own sizer decides whether (mode, version) has a width at all
+                                # (it raises KeyError otherwise); the amount is the one this case prescribes
+                                ck = (mset, version, e, sa)
+                                if ck not in sizer_cache:
+                                    try:
+                                        real_sizer(segs, version, e, sa)
+                                        sizer_cache[ck] = None
+                                    except PyRaise as ex:
+                                        sizer_cache[ck] = ex
+                                if sizer_cache[ck] is not None:
+                                    raise sizer_cache[ck]
+                                return nf_(inv_v.get(version, version))
+                            segs._blwo = blwo
+                            want = _oracle_first_fit(fx, mset, error, eci, micro, needf)
+                            try:
+                                got = fv(segs, None if error is None else lv[error], eci, micro)
+                                got = inv_v.get(got, got)
+                                gtxt = got
+                            except PyRaise as e:
+                                got = None if e.name == 'DataOverflowError' else f'raises {e.name}'
+                                gtxt = f'raises {e.name}'
+                            cnt += 1
+                            if got != want and bad is None:
+                                bad = (tgt, kind, gtxt, want)
+                    n_cases += cnt
+                    key = f'micro={micro} error={error} eci={eci} modes={"+".join(mset)}'
+                    yield ob(key, bad is None, fn,
+                             got=(f'smallest fitting v{bad[0]} ({bad[1]}): returns {bad[2]}' if bad else f'{cnt} cases agree'),
+                             want=(f'{"DataOverflowError" if bad[3] is None else "v" + str(bad[3])}' if bad else 'first admissible fitting version'))
+    fx.info['C04.R3 find_version runs'] = n_cases
+
+
+def _encode_stub_env(fx, it, guessed):
+    """Environment for interpreting encode() with content abstracted away."""
+    md = modes(fx)
+    rec = {}
+
+    def prepare_data(content, mode, encoding):
+        rec['prepare'] = (mode, encoding)
+        return SegmentsModel([SegModel(mode if mode is not None else md['byte'], None)])
+
+    def find_version(segments, error, eci, micro, is_sa=False):
+        rec['find_version'] = (error, eci, micro, is_sa)
+        if isinstance(guessed, str):
+            from ..interp import Raised
+            raise Raised(None, it.exc_class(ast.parse('DataOverflowError', mode='eval').body, genv), 'overflow')
+        return guessed
+
+    def _encode(segments, error, version, mask, eci, boost_error, sa_info=None):
+        rec['_encode'] = dict(error=error, version=version, mask=mask, eci=eci, boost_error=boost_error)
+        return ('CODE', version, error, mask)
+    genv = encoder_env(fx.forest, it, prepare_data=prepare_data, find_version=find_version, _encode=_encode)
+    return genv, rec
+
+
+@rule('C04', 'R4', 19, 'encode: a requested version is returned iff the smallest fitting version is not larger; else DataOverflowError')
+def r4(fx):
+    fn = fx.fn('encoder', 'encode')
+    mv = micro_versions(fx)
+    it = Interp()
+    for req in (-3, -2, -1, 0, 1, 2, 10, 39, 40):
+        bad = None
+        n = 0
+        for guessed in list(iso.ALL_VERSIONS):
+            genv, rec = _encode_stub_env(fx, it, mv[guessed] if guessed < 1 else guessed)
+            f = FuncVal(fn, genv, it)
+            micro = None
+            try:
+                res = f('<content>', None, f'M{req + 4}' if req < 1 else req, None, None, None, False, micro, True)
+                got = ('version', res[1])
+            except PyRaise as e:
+                got = ('raises', e.name)
+            want = ('version', mv[req] if req < 1 else req) if guessed <= req else ('raises', 'DataOverflowError')
+            n += 1
+            if got != want and bad is None:
+                bad = (guessed, got, want)
+        yield ob(f'requested v{req} vs every smallest-fitting version ({n})', bad is None, fn,
+                 got=f'smallest fitting v{bad[0]}: {bad[1]}' if bad else 'exactly the requested version, or DataOverflowError',
+                 want=f'{bad[2]}' if bad else 'exactly the requested version, or DataOverflowError')
+    # no version requested: the guessed one is passed on; overflow propagates
+    for guessed in (-3, 0, 1, 40):
+        genv, rec = _encode_stub_env(fx, it, mv[guessed] if guessed < 1 else guessed)
+        res = FuncVal(fn, genv, it)('<content>', None, None, None, None, None, False, None, True)
+        yield ob(f'no version requested: smallest fitting v{guessed} is used', res[1] == (mv[guessed] if guessed < 1 else guessed),
+                 fn, got=res[1], want=guessed)
+    genv, rec = _encode_stub_env(fx, it, 'overflow')
+    try:
+        FuncVal(fn, genv, it)('<content>', None, None, None, None, None, False, None, True)
+        got = 'returned'
+    except PyRaise as e:
+        got = e.name
+    yield ob('overflow of the search propagates', got == 'DataOverflowError', fn, got=got, want='DataOverflowError')
+    # DataOverflowError is a ValueError
+    cls = fx.forest.cls('encoder', 'DataOverflowError')
+    yield ob('DataOverflowError subclasses ValueError', [ast.unparse(b) for b in cls.bases] == ['ValueError'], cls,
+             got=[ast.unparse(b) for b in cls.bases], want=['ValueError'])
+    # the same eci / micro reach the search
+    for eci in (False, True):
+        for micro in (None, False):
+            genv, rec = _encode_stub_env(fx, it, 1)
+            FuncVal(fn, genv, it)('<content>', 'm', None, None, None, None, eci, micro, True)
+            e = rec.get('find_version')
+            yield ob(f'search sees eci={eci} micro={micro} and the requested level', e is not None and e[1] == eci and e[2] is micro
+                     and e[0] == levels(fx)['M'] and rec['_encode']['eci'] == eci, fn, got=e, want=('M', eci, micro))
+
+
+def _fit_witness(fx, fn, call):
+    """Classify how the version argument of an _encode call is related to a fit test of its segments.
+
+    Returns ('witness', text) or ('none', text)."""
+    kw = src.kwargs_of(call)
+    seg = call.args[0] if call.args else kw.get('segments')
+    ver = kw.get('version') if 'version' in kw else (call.args[2] if len(call.args) > 2 else None)
+    if seg is None or ver is None:
+        raise Unknown('cannot identify segments/version arguments of an _encode call')
+    return seg, ver
+
+
+@rule('C04', 'R5', 3, 'every _encode call is dominated by a witness that its segments fit the version it is given')
+def r5(fx):
+    for modq in ('encode', 'encode_sequence'):
+        fn = fx.fn('encoder', modq)
+        calls = [c for c in src.calls_in(fn, '_encode', into_nested=False) if src.call_name(c) == '_encode']
+        need(calls, f'no _encode call in {modq}')
+        for c in calls:
+            seg, ver = _fit_witness(fx, fn, c)
+            yield from _witness_ob(fx, fn, c, seg, ver)
+
+
+def _witness_ob(fx, fn, call, seg, ver):
+    segt, vert = ast.unparse(seg), ast.unparse(ver)
+    comp = None
+    for a in src.ancestors(call):
+        if isinstance(a, (ast.ListComp, ast.GeneratorExp)):
+            comp = a
+            break
+        if a is fn:
+            break
+    stmts = list(src.statements(fn.body))
+    st_call = nf.enclosing_stmt(call)
+
+    def fv_calls(node):
+        return [c for c in ast.walk(node) if isinstance(c, ast.Call) and src.call_name(c) == 'find_version']
+
+    # Form A (encode): `guessed = find_version(SEG, ...)`; version is None -> version = guessed; elif guessed > version: raise
+    # Form B: version expression is `(version or guessed_version)` under guard `guessed_version <= (version or guessed_version)`
+    # Form C (comprehension over chunk_segments): version = max(find_version(s, ...) for s in CHUNKS) dominating, same CHUNKS iterated
+    witness = None
+    if comp is None:
+        doms = nf.dominators(call, fn, lambda s: isinstance(s, ast.Assign) and fv_calls(s.value))
+        # defs of names used in version expr
+        gnames = set()
+        for d in doms:
+            f = fv_calls(d.value)[0]
+            if ast.unparse(f.args[0]) == segt and isinstance(d.targets[0], ast.Name):
+                gnames.add(d.targets[0].id)
+        # names whose every definition in fn is `find_version(SEG, ...)` or None: a truthy value is a fit result
+        maybe = {}
+        for s_ in stmts:
+            if isinstance(s_, ast.Assign) and len(s_.targets) == 1 and isinstance(s_.targets[0], ast.Name):
+                nm = s_.targets[0].id
+                f = fv_calls(s_.value)
+                good = (isinstance(s_.value, ast.Constant) and s_.value.value is None) or \
+                    (isinstance(s_.value, ast.Call) and f and f[0] is s_.value and ast.unparse(f[0].args[0]) == segt)
+                maybe[nm] = maybe.get(nm, True) and good
+        truthy_names = {k for k, v in maybe.items() if v and any(
+            isinstance(s_, ast.Assign) and ast.unparse(s_.targets[0]) == k and fv_calls(s_.value) for s_ in stmts)}
+        # Form A
+        if gnames and isinstance(ver, ast.Name):
+            g = sorted(gnames)[0]
+            vname = ver.id
+            ifs = nf.dominators(call, fn, lambda s: isinstance(s, ast.If))
+            for i in ifs:
+                b1 = pat.match(i.test, f'{vname} is None')
+                if b1 is not None and len(i.body) == 1 and ast.unparse(i.body[0]) == f'{vname} = {g}' and len(i.orelse) == 1 \
+                        and isinstance(i.orelse[0], ast.If):
+                    j = i.orelse[0]
+                    if nf.norm(j.test) in (f'{g} > {vname}', f'{vname} < {g}') and any(isinstance(x, ast.Raise) for x in j.body):
+                        witness = f'{g} = find_version({segt}, ...); {vname} = {g} if None, raise if {g} > {vname}'
+        # Form B: the call sits under a guard `G <= VER` where VER is literally the version expression passed
+        for t, pol in nf.guards_of(call, fn):
+            conj = t.values if isinstance(t, ast.BoolOp) and isinstance(t.op, ast.And) else [t]
+            for c in conj:
+                for g in gnames | truthy_names:
+                    b = pat.match(c, f'{g} <= H_v')
+                    if pol and b is not None and nf.norm(b['v']) == nf.norm(ver) and \
+                            (g in gnames or any(isinstance(x, ast.Name) and x.id == g for x in conj)):
+                        witness = f'{g} = find_version({segt}, ...) under guard {g} and {g} <= {vert}'
+    else:
+        # comprehension: `for i, S in enumerate(CHUNKS)` or `for S in CHUNKS`
+        gen = comp.generators[0]
+        it_txt = ast.unparse(gen.iter)
+        b = pat.match(gen.iter, 'enumerate(H_c)')
+        chunks = ast.unparse(b['c']) if b else it_txt
+        loopvars = [n.id for n in ast.walk(gen.target) if isinstance(n, ast.Name)]
+        if segt in loopvars and isinstance(ver, ast.Name):
+            vname = ver.id
+            # all assignments to vname that dominate or may reach
+            assigns = [s for s in stmts if isinstance(s, ast.Assign) and any(isinstance(t, ast.Name) and t.id == vname for t in s.targets)]
+            maxfit = [s for s in assigns if pat.match(s.value, f'max(find_version(H_s, H_e, eci=H_eci, micro=False, is_sa=True) for H_s in {chunks})')]
+            # paths: is the max-fit assignment executed on every path? (its guards)
+            if maxfit:
+                m = maxfit[0]
+                gs = nf.guards_of(m, fn)
+                if not gs:
+                    witness = f'{vname} = max(find_version(s, ...) for s in {chunks}) on every path'
+                else:
+                    # witness only under the guard; other paths need a check `max(...) > version -> raise`
+                    other = [s for s in stmts if isinstance(s, ast.If) and 'find_version' in ast.unparse(s.test)
+                             and any(isinstance(x, ast.Raise) for x in s.body)]
+                    if other:
+                        witness = f'{vname} = max(find_version ...) under {nf.guard_text(gs)}; else guarded raise'
+                    else:
+                        witness = None
+                        partial = nf.guard_text(gs)
+                        yield ob(f'_encode({segt}, version={vert}) in comprehension over {chunks}', False, call,
+                                 got=f'fit witness only on the path `{partial}`; on the other path {vname} is the caller-supplied '
+                                     f'version and no find_version({segt}) <= {vname} test dominates the call',
+                                 want=f'{vname} = max(find_version(s) for s in {chunks}) or a dominating raise if a chunk needs a larger version')
+                        return
+    yield ob(f'_encode({segt}, version={vert})' + (' in comprehension' if comp is not None else ''), witness is not None, call,
+             got=witness or 'no fit witness found', want='version := find_version(segments) or dominating raise on find_version(segments) > version')
+
+
+@rule('C04', 'R6', 300, 'bits budgeted by bit_length_with_overhead = bits written by write_segment/_encode for every version, mode, ECI, SA combination')
+def r6(fx):
+    yield from sized_equals_written(fx)
+
+
+def sized_equals_written(fx):
+    fn_w = fx.fn('encoder', 'write_segment')
+    fn_s = fx.fn('encoder', 'Segments.bit_length_with_overhead')
+    enc = fx.fn('encoder', '_encode')
+    lv, mv, md = levels(fx), micro_versions(fx), modes(fx)
+    it = Interp(max_steps=20_000_000)
+    genv = encoder_env(fx.forest, it, get_eci_assignment_number=lambda enc_: 26)
+    ws = FuncVal(fn_w, genv, it)
+    sizer = FuncVal(fn_s, genv, it)
+    vr = genv['version_range']
+    default_enc = C(fx, 'DEFAULT_BYTE_ENCODING')
+    # the SA header block of _encode
+    sa_if = [s for s in enc.body if isinstance(s, ast.If) and ast.unparse(s.test) == 'sa_mode']
+    sa_block = single(sa_if, '`if sa_mode:` block in _encode').body
+
+    class SA(tuple):
+        _model = ('parity',)
+        parity = property(lambda s: s[3])
+    # caller convention of _encode: ver / ver_range
+    seglists = [
+        [('numeric', None)], [('alphanumeric', None)], [('byte', default_enc)], [('byte', 'utf-8')], [('kanji', None)],
+        [('hanzi', None)],
+        [('hanzi', None), ('numeric', None), ('hanzi', None)],
+        [('byte', 'utf-8'), ('byte', default_enc), ('kanji', None)],
+        [('numeric', None), ('byte', 'shift_jis'), ('alphanumeric', None), ('byte', 'utf-8')],
+    ]
+    conv = _caller_convention(fx, enc)
+    n = 0
+    for v in iso.ALL_VERSIONS:
+        rv = mv[v] if v < 1 else v
+        for sl in seglists:
+            if any((None if v >= 1 else v) not in iso.SUPPORTED[m] for m, e in sl):
+                continue
+            for eci in (False, True):
+                if eci and v < 1:
+                    continue
+                for sa in ((False, True) if v >= 1 else (False,)):
+                    segs = [SegModel(md[m], e, nbits=13 + 3 * i, char_count=2) for i, (m, e) in enumerate(sl)]
+                    buf = BufModel()
+                    if sa:
+                        it.block(sa_block, dict(genv, buff=buf, sa_info=SA((3, 1, 2, 99))))
+                    ver, ver_range = conv(rv, vr)
+                    for s in segs:
+                        ws(buf, s, ver, ver_range, eci)
+                    written = len(buf)
+                    model = SegmentsModel(segs)
+                    sized = sizer(model, rv, eci, sa)
+                    n += 1
+                    key = f'v{v} {"+".join(m + ("" if e in (None, default_enc) else "/" + e) for m, e in sl)} eci={eci} sa={sa}'
+                    yield Ob(key, written == sized, 'encoder.Segments.bit_length_with_overhead', fn_s.lineno,
+                             f'budgeted {sized} bits, written {written} bits', 'equal', True)
+
+
+def _caller_convention(fx, enc):
+    """How _encode derives (ver, ver_range) for write_segment from version: read from its first statements."""
+    it = Interp()
+    pre = []
+    for st in enc.body:
+        txt = ast.unparse(st)
+        if isinstance(st, ast.Assign) and ast.unparse(st.targets[0]) in ('is_micro', 'ver', 'ver_range'):
+            pre.append(st)
+        elif isinstance(st, ast.If) and 'ver' in txt and 'version_range' in txt:
+            pre.append(st)
+    need(len(pre) >= 3, '_encode: derivation of ver / ver_range not found')
+    genv = encoder_env(fx.forest, it)
+
+    def conv(rv, vr):
+        e = dict(genv, version=rv)
+        it.block(pre, e)
+        return e['ver'], e['ver_range']
+    return conv
